@@ -20,7 +20,7 @@ RULE = ("all failure patterns over attempts (F=exception, T=timeout, S=success) 
         "trivial = N=0 with success")
 ASSUMPTIONS = ["Redis and RabbitMQ are wire-level fakes", "virtual time", "cron recurrence not exercised (croniter absent)"]
 EVAL_COUNTER = "chains_judged"
-REQUIRED = ["chains_judged", "retries_timed", "final_dead", "final_gone", "final_rescheduled", "forced_over_budget", "timezone_offset_runs"]
+REQUIRED = ["chains_judged", "retries_timed", "final_dead", "final_gone", "final_rescheduled", "forced_over_budget", "timezone_offset_runs", "waiting_retries_inspected_and_returned"]
 CASE_TIMEOUT = 150
 
 POLICIES = ("default", "default_rand", "zero", "linear", "lambda")
@@ -69,6 +69,12 @@ def gen_cases(tier, seed):
         pats7 = ["".join(rnd.choice("FFFT") for _ in range(rnd.randint(0, 8))) for _ in range(nsamp)]
         pats7 = [p + "S" if len(p) <= 7 else p for p in pats7]
         cases.append({"kind": kind, "policy": "linear", "rec": False, "N": 7, "patterns": pats7, "mode": "ladder", "seed": rnd.randrange(10**6)})
+    # ... and with queue tooling giving waiting retries back while they wait
+    # (in-memory only: on Redis a short-lived consumer's finish() can strand a prefetched message - C01's known finding -
+    # which would end a chain for a reason that is not this property's)
+    for kind in ("mem",):
+        for pol in ("linear", "lambda", "default"):
+            cases.append({"kind": kind, "policy": pol, "rec": pol == "default", "N": 2, "patterns": patterns(2), "mode": "ladder", "seed": rnd.randrange(10**6), "inspect": True})
     # the same ladders on machines whose local time is not UTC (every timestamp in a message is a naive local datetime)
     for i, tz in enumerate(("JST-9", "CET-1", "EST5", "IST-5:30", "NPT-5:45", "HST10")):
         if tier == "quick" and i >= 4:
@@ -158,7 +164,33 @@ async def scenario(loop, case, out, stats, fps, samples):
             return len({e.get("id") for e in w.log.events if e.get("k") == "call" and e.get("depth") == 0 and (e.get("op") in ("ack", "nack") or (e.get("op") == "requeue" and (e.get("params") or {}).get("tried") == 0))})
 
         worker = w.worker([r], tasks_limit=1000, graceful_shutdown_time=5.0, handle_signals=[__import__("signal").SIGUSR1])
+        insp = None
+        if case.get("inspect"):
+            # queue tooling at work while retries wait: a DELAYED-category reader takes waiting messages one by one, looks at
+            # them and gives them straight back; their back-off is what it was
+            from repid.message import MessageCategory
+
+            async def inspector():
+                while True:
+                    await asyncio.sleep(0.11)
+                    cons = w.conn.message_broker.get_consumer("default", None, None, MessageCategory.DELAYED)
+                    await cons.start()
+                    try:
+                        key, _pl, _pr = await asyncio.wait_for(cons.consume(), 0.3 if kind == "mem" else 1.2)
+                        await w.conn.message_broker.reject(key)
+                        stats["waiting_retries_inspected_and_returned"] += 1
+                    except asyncio.TimeoutError:
+                        pass
+                    await cons.finish()
+
+            insp = loop.create_task(inspector())
         info = await run_worker(w, worker, until=lambda: finals() >= len(jobs), horizon=horizon, poll=0.25)
+        if insp is not None:
+            insp.cancel()
+            try:
+                await insp
+            except BaseException:  # noqa: BLE001
+                pass
         if info["exc"] is not None or not info["returned"]:
             out.append(V("worker_died", kind, "run", f"Worker.run: exc={info['exc']!r} returned={info['returned']}"))
         await asyncio.sleep(0.3)
